@@ -25,6 +25,8 @@ def describe(ck):
     ck.rule("R05e", "a local pointer that is NULL-tested somewhere is not dereferenced on a path from a NULL definition without assignment or test")
     ck.rule("R05g", "no path in the call graph from an API function to exit/abort")
     ck.rule("R05i", "a local pointer published through an out-parameter is not released afterwards on any path without reassignment")
+    ck.rule("R05j", "loop-carried appends X->buf[X->count]; X->count++ test count against capacity before the next element access")
+    ck.rule("R05k", "a local pointer that aliases storage owned by a struct field is not passed to a releaser while the owner still holds it")
     ck.not_decided += ["termination of all loops", "index safety inside the DP / bit-parallel kernels",
                        "integer overflow for huge inputs", "behaviour when malloc fails"]
     ck.assumptions += ["<ctype.h> predicates have C-locale semantics (kalign never calls setlocale)",
@@ -337,7 +339,12 @@ def run(ck, progs):
         r05g(ck, prog)
         n = r05i(ck, prog)
         ck.floor("R05i", n, 20, "out-parameter publications")
+        n = r05j(ck, prog)
+        ck.floor("R05j", n, 12, "counted appends")
+        n = r05k(ck, prog)
     from ..controls import run_control
+    run_control(ck, ck.work, "R05j", "c05.c", lambda c, p: r05j(c, p, table=[("gbuf", ("items",), "n", "cap")]), "r05j")
+    run_control(ck, ck.work, "R05k", "c05.c", r05k, "r05k")
     run_control(ck, ck.work, "R05a", "c05.c", r05a, "r05a")
     run_control(ck, ck.work, "R05e", "c05.c", r05e, "r05e")
     run_control(ck, ck.work, "R05i", "c05.c", r05i, "r05i")
@@ -702,3 +709,143 @@ def r05d_main(ck, prog):
             ck.violation("R05d", "R05d/main/%s-exit" % prog.rel(F.file), site(prog, r),
                          "main returns %s after the ERROR label: a failure is reported as success" % (
                              r.kids[0].text() if r.kids else "nothing"), prog.config)
+
+
+# --------------------------------------------------------------------------- R05k
+def _is_borrow(rhs):
+    """rhs loads a pointer that some object still owns: X->f, X->f[i], X.f (not a call, not &, not NULL)"""
+    r = rhs.strip(casts=True)
+    if r.k == "MemberExpr":
+        return True
+    if r.k == "ArraySubscriptExpr":
+        return any(m.k == "MemberExpr" for m in r.kids[0].walk())
+    return False
+
+
+def r05k(ck, prog, functions=None):
+    """A local pointer that merely aliases storage owned by a struct field must not be passed to a
+    releaser while the owner still points to it (the owner's destructor frees it again)."""
+    n_inst = 0
+    for F in (functions or prog.all_functions):
+        if "/tests/" in F.file or F.cfg is None:
+            continue
+        cfg = F.cfg
+        rel_by_var = {}
+        for c in F.body.find("CallExpr"):
+            if not _is_releaser(c.callee) and c.callee != "free":
+                continue
+            for a in c.args:
+                a0 = a.strip(casts=True)
+                if a0.k == "DeclRefExpr" and a0.d.get("dk") == "Var" and not a0.d.get("g") and a0.ty.endswith("*"):
+                    rel_by_var.setdefault(a0.d["did"], []).append(c)
+        for did, rels in rel_by_var.items():
+            defs = local_defs(F, did)
+            borrows = [(r, n) for r, n in defs if r is not None and _is_borrow(r)]
+            if not borrows:
+                continue
+            others = [n for r, n in defs if not (r is not None and _is_borrow(r))]
+            for rhs, dn in borrows:
+                src = rhs.strip(casts=True)
+                src_txt = src.text()
+                # ownership moves if the owner's slot is overwritten afterwards (x = a->p; a->p = NULL / = other)
+                movers = []
+                for n in F.body.find("BinaryOperator"):
+                    if n.d["op"] == "=" and n.kids[0].strip().text() == src_txt:
+                        movers.append(n)
+                # ... or if the owner itself is released / the slot's container is freed right after (free(p->x) idiom)
+                barriers = [cfg.position(x) for x in others + movers if x is not dn]
+                barriers = [b for b in barriers if b is not None]
+                dpos = cfg.position(dn)
+                n_inst += 1
+                where = site(prog, dn, "%s=%s" % (F.by_id[dn.id].text()[:0], src_txt))
+                name = next((r.d["name"] for r in F.body.refs(did=did)), "?")
+                ck.inst("R05k", where, "%s: local %s borrows %s; %d release call(s) of %s" % (
+                    F.name, name, src_txt, len(rels), name), prog.config)
+                for c in rels:
+                    cp = cfg.position(c)
+                    if dpos is None or cp is None:
+                        continue
+                    if cfg.reaches(dpos, cp, avoid=barriers):
+                        ck.violation("R05k", "R05k/%s/%s" % (F.name, name), site(prog, c, name),
+                                     "%s releases %s, which still aliases %s (assigned at %s) on some path: the owner "
+                                     "frees the same storage again (double free)" % (F.name, name, src_txt, site(prog, dn)),
+                                     prog.config, path=[site(prog, dn), site(prog, c)])
+                        break
+    return n_inst
+
+
+# --------------------------------------------------------------------------- R05j
+# growable arrays of the repo: (record, buffer fields, count field, capacity field)
+GROWABLE = [
+    ("msa", ("sequences",), "numseq", "alloc_numseq"),
+    ("msa_seq", ("seq", "s", "gaps"), "len", "alloc_len"),
+    ("in_buffer", ("l",), "n_lines", "alloc_lines"),
+    ("line_buffer", ("lines",), "num_line", "alloc_num_lines"),
+]
+
+
+def r05j(ck, prog, functions=None, table=None):
+    """append discipline: after `X->count++`, the next element access X->buf[X->count] on any path
+    (typically the next loop iteration) must be preceded by a comparison of count with capacity."""
+    n_inst = 0
+    for rec, bufs, cnt, cap in (table or GROWABLE):
+        if rec not in prog.records:
+            raise AnalysisBroken("R05j slot: struct %s not found" % rec)
+        for f in bufs + (cnt, cap):
+            prog.field(rec, f)
+        for F in (functions or prog.all_functions):
+            if "/tests/" in F.file or F.cfg is None:
+                continue
+            cfg = F.cfg
+            incs = []
+            for m in member_accesses(F.body, rec, cnt):
+                if access_mode(m) == "rmw":
+                    p = m.up()[0]
+                    if (p.k == "UnaryOperator" and p.d["op"] == "++") or \
+                            (p.k == "CompoundAssignOperator" and p.d["op"] == "+="):
+                        incs.append((m, p))
+            if not incs:
+                continue
+            uses = []
+            for m in F.body.find("MemberExpr"):
+                if m.d.get("rec") == rec and m.d.get("field") in bufs:
+                    p, c = m.up()
+                    if p is not None and p.k == "ArraySubscriptExpr" and c.within(p.kids[0]):
+                        idx = p.kids[1]
+                        if any(x.d.get("field") == cnt and x.d.get("rec") == rec for x in idx.find("MemberExpr")):
+                            uses.append(p)
+            checks = []
+            for b in F.body.find("BinaryOperator"):
+                if b.d["op"] in ("==", ">=", "<=", ">", "<", "!="):
+                    fs = {(x.d.get("rec"), x.d.get("field")) for x in b.find("MemberExpr")}
+                    if (rec, cnt) in fs and (rec, cap) in fs:
+                        checks.append(b)
+            for m, incnode in incs:
+                owner = m.kids[0].text() if m.kids else "?"
+                my_uses = [u for u in uses if u.kids[0].text().startswith(owner)]
+                if not my_uses:
+                    continue
+                my_checks = [cfg.position(b) for b in checks
+                             if any(x.d.get("field") == cnt and x.kids and x.kids[0].text() == owner for x in b.find("MemberExpr"))]
+                my_checks = [x for x in my_checks if x is not None]
+                n_inst += 1
+                where = site(prog, incnode, "%s->%s++" % (owner, cnt))
+                ck.inst("R05j", where, "%s: append to %s.%s counted by %s; %d capacity test(s) against %s" % (
+                    F.name, rec, "/".join(bufs), cnt, len(my_checks), cap), prog.config)
+                ip = cfg.position(incnode)
+                inc_loops = {id(a) for a in incnode.ancestors() if a.k in ("ForStmt", "WhileStmt", "DoStmt")}
+                for u in my_uses:
+                    up_ = cfg.position(u)
+                    if ip is None or up_ is None:
+                        continue
+                    # loop-carried appends only: an unbounded number of elements.  Straight-line appends right
+                    # after allocation (header lines) are bounded by the initial capacity and not this rule's business.
+                    if not any(id(a) in inc_loops for a in u.ancestors()):
+                        continue
+                    if cfg.reaches(ip, up_, avoid=my_checks):
+                        ck.violation("R05j", "R05j/%s/%s.%s" % (F.name, rec, cnt), where,
+                                     "after %s->%s++ the element access %s at %s is reachable without a test of %s against %s: "
+                                     "the append can run past the allocation" % (owner, cnt, u.text()[:50], site(prog, u), cnt, cap),
+                                     prog.config, path=[where, site(prog, u)])
+                        break
+    return n_inst
